@@ -9,11 +9,14 @@ VERIF = os.path.dirname(os.path.dirname(os.path.abspath(__file__)))
 # id -> dict(level, text, note, technique, design_ref, engine)
 MICRO_TEXT = (" Micro level: the same handlers under the cooperative scheduler (lock acquisitions, channel operations and goroutine "
               "starts of the rewritten proxy_streams.go / shard_manager.go / admin_stream_transfer.go and every Send on a fake stream are "
-              "scheduling points; scenarios incl. a watermark broadcast to two targets whose proxy id counters differ) with a short "
+              "scheduling points; scenarios incl. a watermark broadcast to two targets whose proxy id counters differ and two proxy "
+              "instances joined by an in-memory intra-proxy stream) with a short "
               "environment script as one more thread, so every environment step is taken at every scheduling point; every schedule with at "
               "most 2 (thorough 3) departures from the default schedule is executed (delay bounding), followed by the closing phase.")
 
-ROUTE_NOTE = ("Trusted: the fake gRPC stream endpoints (blocking Recv, context cancellation, CloseSend => peer EOF), the transcription of "
+ROUTE_NOTE = ("Scenarios include two and three proxy instances (own shard manager and servers each, shared Temporal clusters, ownership "
+              "views synchronised by a state exchange and stream reconciliation after every action, intra-proxy streams as in-memory pairs "
+              "served by the peer's real handler). Trusted: the fake gRPC stream endpoints (blocking Recv, context cancellation, CloseSend => peer EOF), the transcription of "
               "Temporal's ExecutableTaskTracker (v1.31.2) used as target model, testing/synctest's virtual time. Assumed: cascades triggered by "
               "one environment event are confluent (events are applied one at a time and run to quiescence); hand-off channel / ring capacities "
               "are abstracted to small values in the scenarios that need 'queue full' or 'ring wraps' (rewriter rule caps). Bounds: <=3x2 shards, "
@@ -37,7 +40,11 @@ CLAIMED = {
              "the last id and above every earlier high, Temporal's tracker model never drops a task or panics, each task on the stream of the "
              "shard Temporal's own hash assigns it to (including same workflow id in two namespaces), payload proto.Equal apart from the two "
              "id fields, per (source,target) order preserved, no task twice; at the end of the closing phase of every state every returned "
-             "task has been delivered exactly once." + MICRO_TEXT,
+             "task has been delivered exactly once." + MICRO_TEXT + " Wiring part: routing mode on a real ClusterConnection (loopback TCP) "
+             "for shard-count pairs {(4,2),(2,4),(3,3)} (thorough 7 pairs): every shard of both clusters opens its stream, both fake "
+             "clusters serve the proxy's pull streams as source shards, every task must arrive exactly once on the stream of the shard "
+             "that owns its workflow under the receiving cluster's count, in both replication directions (the routing parameters "
+             "NewClusterConnection computes are real here, not transcribed).",
         note=ROUTE_NOTE, technique="explicit-state BFS over environment-event orders on the implementation + closing phase from every state; delay-bounded DFS over interleavings",
         design_ref="5/C02", engine="A-macro"),
     "C03": dict(
@@ -245,7 +252,11 @@ CLAIMED = {
              "table {local stream present / closed-but-registered / absent} x {remote owner with stream / peer known without a stream for "
              "the pair / owner without peer state / unknown / owner without address} x {message, ack with and without forwarding} through the "
              "real DeliverMessagesToShardOwner / DeliverAckToShardOwner and intraProxyManager with fake intra-proxy streams: true <=> exactly "
-             "one copy handed to exactly one recipient (local first), false <=> nothing handed over. Conformance: two real instances on a "
+             "one copy handed to exactly one recipient (local first), false <=> nothing handed over. Routing histories: every sequence "
+             "(depth 4, thorough 5) of {a peer's snapshot claims the shard, no longer claims it, a peer leaves} with a message and an ack "
+             "routed after every event. Several whole instances (2-3 proxies joined by in-memory intra-proxy streams, incl. a shard that "
+             "moves to another instance while its old stream is alive): the routing checks' delivery / acknowledgement oracles reported "
+             "under C09. Conformance: two real instances on a "
              "real hashicorp/memberlist (MockNetwork transport): join merges state, RegisterShard emits exactly one reliable message with the "
              "transcribed payload, a newer claim evicts through memberlist's own receive path, Leave returns and is observed (this run found "
              "the NotifyLeave self-deadlock, fixed in /repo).",
